@@ -14,7 +14,7 @@ RULE = ("Every string up to length N (3 quick, 5 thorough) over {2 narrow, 2 dou
         "Random longer strings on top. distinct = distinct (runs, operation, arguments); "
         "non-trivial = the string has at least one character.")
 FLOOR = 2000
-SHARDS = {"thorough": 16}
+SHARDS = {"quick": 4, "thorough": 16}
 ASSUMPTIONS = ["wcwidth (pure Python) and cwcwidth agree on the alphabet used (asserted at start-up)",
                "zero-width characters are compared up to attachment: those following a character "
                "lying wholly inside the range must be kept, others are don't-care"]
@@ -88,6 +88,22 @@ def _run_case(ctx, case):
             ctx.judge(False, case, mech=mech, expected=want, got=repr(ex), nontrivial=nontrivial)
             return
         ctx.judge(got == want, case, mech=mech, expected=want, got=got, nontrivial=nontrivial)
+    elif op == "sequence":
+        W = cols.width(F)
+        for a, b in case["slices"]:
+            E = cols.expected_slice(F, a, b)
+            try:
+                got = obs.cells(f.width_aware_slice(slice(a, b)))
+            except Exception as ex:  # noqa
+                ctx.judge(False, case, mech="C10:slice-sequence", expected=obs.show([e[0] for e in E]), got=repr(ex),
+                          detail=[a, b])
+                return
+            lead, G = cols.group(got)
+            if [g[0] for g in G] != [e[0] for e in E]:
+                ctx.judge(False, case, mech="C10:slice-sequence", expected=obs.show([e[0] for e in E]),
+                          got=obs.show(got), detail=[a, b])
+                return
+        ctx.judge(True, case, nontrivial=nontrivial)
     elif op == "slice":
         a, b = case["a"], case["b"]
         W = cols.width(F)
@@ -166,3 +182,11 @@ def run(ctx):
         spec = obs.rand_spec(rng, 5, 4, alpha, palette=obs.PALETTE)
         all_ops(ctx, spec)
         ctx.count("random_layouts")
+        W = cols.width(obs.spec_cells(spec))
+        for _ in range(3):
+            sl = []
+            for _ in range(rng.randint(2, 5)):
+                a = rng.randint(0, W + 1)
+                sl.append([a, rng.randint(a, W + 2)])
+            run_case(ctx, {"op": "sequence", "spec": spec, "slices": sl})
+            ctx.count("slice_sequences")
